@@ -19,7 +19,7 @@ every collection (entry of the next allocation) and at the end of the run:
 """
 import copy
 
-from . import core, corpus, schedules, workloads
+from . import allgens, core, corpus, schedules, workloads
 from .runner import Check
 from .c05 import base_job
 
@@ -108,6 +108,7 @@ class C20(Check):
         return len(self.plan(tier))
 
     def prepare(self, ctx):
+        allgens.register_all()
         self.programs = corpus.load()
         self.the_plan = self.plan(ctx.tier)
         self.startup = self.startup_probe(ctx)
